@@ -456,7 +456,11 @@ fn validate_tuple(span: Span, tuple: &Tuple, nt: &TypeRepr) -> NormResult<()> {
                 }
             }
         }
-        _ => unreachable!("expected a tuple type, but found `{}`", nt),
+        _ => return_err!(
+            span,
+            "expected a tuple type for the tuple pattern, but found `{}`",
+            nt
+        ),
     }
 
     Ok(())
